@@ -37,31 +37,35 @@ VARIABLE cfg   \* the configuration of this behaviour (never changes):
                \*   cap      = queue capacity (power of two)
                \*   maxrot   = how many times the files may rotate
                \*   early    = TRUE: close() may be called while logging threads are still writing
+               \*   iovmax   = IOV_MAX: the most segments one writev accepts (1024 in the kernel, small in the models)
+               \* an op [k |-> "w", f, s] writes an entry of s segments (pages + page-table pages) to file f
 Prog == cfg.prog
 Cap == cfg.cap
 MaxRot == cfg.maxrot
 CloseEarly == cfg.early
+IOVMax == cfg.iovmax
 
 Loggers == 1..Len(Prog)
 Files == {0, 1}
 EntryOK(e) == e[1] \in Loggers /\ e[2] \in 1..Len(Prog[e[1]])
 OpOf(e) == Prog[e[1]][e[2]]
-SegsOf(e) == <<<<e, 1>>, <<e, 2>>>>
-PagesOf(e) == {<<e, 1>>, <<e, 2>>}
+SegsOf(e) == [j \in 1..OpOf(e).s |-> <<e, j>>]
+PagesOf(e) == {<<e, j>> : j \in 1..OpOf(e).s}
 Marker == <<0, 0>>
 
 VARIABLES lpc, li,              \* logging threads: pc, index of the current op
           cells, popIdx, relIdx,\* the abstract queue: cells in ticket order, claimed / released by the popper
           tk,                   \* tk[t]: ticket of thread t (0 = closer)
           cpc,                  \* closer: "wait" | "ticket" | "check" | "sleep" | "join" | "done"
-          wpc, wn, wfull, stop, wdi, \* writer: pc, cells claimed in this range, range 1 complete, stop flag, destination index
+          wpc, wn, woff, wfull, stop, wdi, \* writer: pc, cells claimed in this range, segments of the current destination already
+                                \* handed to writev, range 1 complete, stop flag, destination index
           dests, iov,           \* _destinations (registration order), per file the pending scatter list
           gen, rots,            \* current generation of each file, rotations so far
           content,              \* content[f]: what reached the file: sequence of [g, seg]
           held, pool, dfree,    \* pages out / returned; a page was returned that was not out
           wdone, must, discarded\* history: write() returned; returned before close() was called; discarded
 
-vars == <<cfg, lpc, li, cells, popIdx, relIdx, tk, cpc, wpc, wn, wfull, stop, wdi, dests, iov, gen, rots, content, held, pool, dfree, wdone, must, discarded>>
+vars == <<cfg, lpc, li, cells, popIdx, relIdx, tk, cpc, wpc, wn, woff, wfull, stop, wdi, dests, iov, gen, rots, content, held, pool, dfree, wdone, must, discarded>>
 
 InitFor(c) ==
   /\ cfg = c
@@ -69,7 +73,7 @@ InitFor(c) ==
   /\ cells = << >> /\ popIdx = 0 /\ relIdx = 0
   /\ tk = [t \in Loggers \cup {0} |-> 0]
   /\ cpc = "wait"
-  /\ wpc = "pop" /\ wn = 0 /\ wfull = FALSE /\ stop = FALSE /\ wdi = 1
+  /\ wpc = "pop" /\ wn = 0 /\ woff = 0 /\ wfull = FALSE /\ stop = FALSE /\ wdi = 1
   /\ dests = << >> /\ iov = [f \in Files |-> << >>]
   /\ gen = [f \in Files |-> 0] /\ rots = 0
   /\ content = [f \in Files |-> << >>]
@@ -89,33 +93,33 @@ Build(t) ==
   /\ lpc[t] = "idle" /\ ~Finished(t)
   /\ held' = held \cup PagesOf(Cur(t)) /\ pool' = pool \ PagesOf(Cur(t))
   /\ lpc' = [lpc EXCEPT ![t] = "built"]
-  /\ UNCHANGED <<li, cells, popIdx, relIdx, tk, cpc, wpc, wn, wfull, stop, wdi, dests, iov, gen, rots, content, dfree, wdone, must, discarded>>
+  /\ UNCHANGED <<li, cells, popIdx, relIdx, tk, cpc, wpc, wn, woff, wfull, stop, wdi, dests, iov, gen, rots, content, dfree, wdone, must, discarded>>
 
 Discard(t) ==
   /\ lpc[t] = "built" /\ OpOf(Cur(t)).k = "d"
   /\ Free(PagesOf(Cur(t)))
   /\ discarded' = discarded \cup {Cur(t)}
   /\ lpc' = [lpc EXCEPT ![t] = "idle"] /\ li' = [li EXCEPT ![t] = @ + 1]
-  /\ UNCHANGED <<cells, popIdx, relIdx, tk, cpc, wpc, wn, wfull, stop, wdi, dests, iov, gen, rots, content, wdone, must>>
+  /\ UNCHANGED <<cells, popIdx, relIdx, tk, cpc, wpc, wn, woff, wfull, stop, wdi, dests, iov, gen, rots, content, wdone, must>>
 
 Ticket(t) ==   \* push: fetch_add on the push index
   /\ lpc[t] = "built" /\ OpOf(Cur(t)).k = "w"
   /\ cells' = Append(cells, [st |-> "claimed", item |-> Cur(t)])
   /\ tk' = [tk EXCEPT ![t] = Len(cells) + 1]
   /\ lpc' = [lpc EXCEPT ![t] = "ticket"]
-  /\ UNCHANGED <<li, popIdx, relIdx, cpc, wpc, wn, wfull, stop, wdi, dests, iov, gen, rots, content, held, pool, dfree, wdone, must, discarded>>
+  /\ UNCHANGED <<li, popIdx, relIdx, cpc, wpc, wn, woff, wfull, stop, wdi, dests, iov, gen, rots, content, held, pool, dfree, wdone, must, discarded>>
 
 Fill(t) ==     \* spin until the slot is free, copy the entry, publish
   /\ lpc[t] = "ticket" /\ tk[t] <= relIdx + Cap
   /\ cells' = [cells EXCEPT ![tk[t]].st = "pub"]
   /\ lpc' = [lpc EXCEPT ![t] = "filled"]
-  /\ UNCHANGED <<li, popIdx, relIdx, tk, cpc, wpc, wn, wfull, stop, wdi, dests, iov, gen, rots, content, held, pool, dfree, wdone, must, discarded>>
+  /\ UNCHANGED <<li, popIdx, relIdx, tk, cpc, wpc, wn, woff, wfull, stop, wdi, dests, iov, gen, rots, content, held, pool, dfree, wdone, must, discarded>>
 
 Ret(t) ==
   /\ lpc[t] = "filled"
   /\ wdone' = wdone \cup {Cur(t)}
   /\ lpc' = [lpc EXCEPT ![t] = "idle"] /\ li' = [li EXCEPT ![t] = @ + 1]
-  /\ UNCHANGED <<cells, popIdx, relIdx, tk, cpc, wpc, wn, wfull, stop, wdi, dests, iov, gen, rots, content, held, pool, dfree, must, discarded>>
+  /\ UNCHANGED <<cells, popIdx, relIdx, tk, cpc, wpc, wn, woff, wfull, stop, wdi, dests, iov, gen, rots, content, held, pool, dfree, must, discarded>>
 
 LoggerStep(t) == Build(t) \/ Discard(t) \/ Ticket(t) \/ Fill(t) \/ Ret(t)
 
@@ -124,14 +128,14 @@ CCall ==
   /\ cpc = "wait" /\ (CloseEarly \/ \A t \in Loggers : Finished(t))
   /\ must' = wdone
   /\ cpc' = "ticket"
-  /\ UNCHANGED <<lpc, li, cells, popIdx, relIdx, tk, wpc, wn, wfull, stop, wdi, dests, iov, gen, rots, content, held, pool, dfree, wdone, discarded>>
+  /\ UNCHANGED <<lpc, li, cells, popIdx, relIdx, tk, wpc, wn, woff, wfull, stop, wdi, dests, iov, gen, rots, content, held, pool, dfree, wdone, discarded>>
 
 CTicket ==
   /\ cpc = "ticket"
   /\ cells' = Append(cells, [st |-> "claimed", item |-> Marker])
   /\ tk' = [tk EXCEPT ![0] = Len(cells) + 1]
   /\ cpc' = "check"
-  /\ UNCHANGED <<lpc, li, popIdx, relIdx, wpc, wn, wfull, stop, wdi, dests, iov, gen, rots, content, held, pool, dfree, wdone, must, discarded>>
+  /\ UNCHANGED <<lpc, li, popIdx, relIdx, wpc, wn, woff, wfull, stop, wdi, dests, iov, gen, rots, content, held, pool, dfree, wdone, must, discarded>>
 
 \* slot free: publish the marker.  Not free: futex wait -- and nobody ever wakes it (O1)
 CCheck ==
@@ -139,12 +143,12 @@ CCheck ==
   /\ IF tk[0] <= relIdx + Cap
      THEN cells' = [cells EXCEPT ![tk[0]].st = "pub"] /\ cpc' = "join"
      ELSE cells' = cells /\ cpc' = "sleep"
-  /\ UNCHANGED <<lpc, li, popIdx, relIdx, tk, wpc, wn, wfull, stop, wdi, dests, iov, gen, rots, content, held, pool, dfree, wdone, must, discarded>>
+  /\ UNCHANGED <<lpc, li, popIdx, relIdx, tk, wpc, wn, woff, wfull, stop, wdi, dests, iov, gen, rots, content, held, pool, dfree, wdone, must, discarded>>
 
 CJoin ==
   /\ cpc = "join" /\ wpc = "exit"
   /\ cpc' = "done"
-  /\ UNCHANGED <<lpc, li, cells, popIdx, relIdx, tk, wpc, wn, wfull, stop, wdi, dests, iov, gen, rots, content, held, pool, dfree, wdone, must, discarded>>
+  /\ UNCHANGED <<lpc, li, cells, popIdx, relIdx, tk, wpc, wn, woff, wfull, stop, wdi, dests, iov, gen, rots, content, held, pool, dfree, wdone, must, discarded>>
 
 CloserStep == CCall \/ CTicket \/ CCheck \/ CJoin
 
@@ -174,51 +178,72 @@ PopRange(max, nextpc) ==
 WPop1 ==   \* first range: up to the end of the ring
   /\ wpc = "pop"
   /\ PopRange(Cap - (popIdx % Cap), "rel1")
-  /\ UNCHANGED <<lpc, li, cells, relIdx, tk, cpc, wdi, gen, rots, content, held, pool, dfree, wdone, must, discarded>>
+  /\ UNCHANGED <<lpc, li, cells, relIdx, tk, cpc, woff, wdi, gen, rots, content, held, pool, dfree, wdone, must, discarded>>
 
 WRel1 ==   \* slots of range 1 released; a second range follows if range 1 was complete and batch not exhausted
   /\ wpc = "rel1"
   /\ relIdx' = relIdx + wn
   /\ wpc' = IF wfull /\ wn < Cap THEN "pop2" ELSE "dest"
-  /\ UNCHANGED <<lpc, li, cells, popIdx, tk, cpc, wn, wfull, stop, wdi, dests, iov, gen, rots, content, held, pool, dfree, wdone, must, discarded>>
+  /\ UNCHANGED <<lpc, li, cells, popIdx, tk, cpc, wn, woff, wfull, stop, wdi, dests, iov, gen, rots, content, held, pool, dfree, wdone, must, discarded>>
 
 WPop2 ==
   /\ wpc = "pop2"
   /\ PopRange(Cap - wn, "rel2")
-  /\ UNCHANGED <<lpc, li, cells, relIdx, tk, cpc, wdi, gen, rots, content, held, pool, dfree, wdone, must, discarded>>
+  /\ UNCHANGED <<lpc, li, cells, relIdx, tk, cpc, woff, wdi, gen, rots, content, held, pool, dfree, wdone, must, discarded>>
 
 WRel2 ==
   /\ wpc = "rel2"
   /\ relIdx' = relIdx + wn
   /\ wpc' = "dest"
-  /\ UNCHANGED <<lpc, li, cells, popIdx, tk, cpc, wn, wfull, stop, wdi, dests, iov, gen, rots, content, held, pool, dfree, wdone, must, discarded>>
+  /\ UNCHANGED <<lpc, li, cells, popIdx, tk, cpc, wn, woff, wfull, stop, wdi, dests, iov, gen, rots, content, held, pool, dfree, wdone, must, discarded>>
 
 \* every destination was visited: back off
 WDestDone ==
   /\ wpc = "dest" /\ wdi > Len(dests)
   /\ wpc' = "backoff" /\ wdi' = 1
-  /\ UNCHANGED <<lpc, li, cells, popIdx, relIdx, tk, cpc, wn, wfull, stop, dests, iov, gen, rots, content, held, pool, dfree, wdone, must, discarded>>
+  /\ UNCHANGED <<lpc, li, cells, popIdx, relIdx, tk, cpc, wn, woff, wfull, stop, dests, iov, gen, rots, content, held, pool, dfree, wdone, must, discarded>>
 
-\* one destination: descriptor check (rotation possible), writev, pages back
+\* one destination: descriptor check (rotation possible); nothing pending -> next destination
 WDestOne(rot) ==
   /\ wpc = "dest" /\ wdi <= Len(dests)
   /\ rot => rots < MaxRot
   /\ LET f == dests[wdi]
-         g == IF rot THEN gen[f] + 1 ELSE gen[f]
-     IN /\ gen' = [gen EXCEPT ![f] = g]
+     IN /\ gen' = [gen EXCEPT ![f] = IF rot THEN @ + 1 ELSE @]
         /\ rots' = IF rot THEN rots + 1 ELSE rots
-        /\ content' = [content EXCEPT ![f] = @ \o [i \in 1..Len(iov[f]) |-> [g |-> g, seg |-> iov[f][i]]]]
-        /\ Free({iov[f][i] : i \in 1..Len(iov[f])})
-        /\ iov' = [iov EXCEPT ![f] = << >>]
-  /\ wdi' = wdi + 1 /\ wpc' = wpc
-  /\ UNCHANGED <<lpc, li, cells, popIdx, relIdx, tk, cpc, wn, wfull, stop, dests, wdone, must, discarded>>
+        /\ IF iov[f] = << >> THEN wdi' = wdi + 1 /\ wpc' = "dest" ELSE wdi' = wdi /\ wpc' = "wv"
+  /\ woff' = 0
+  /\ UNCHANGED <<lpc, li, cells, popIdx, relIdx, tk, cpc, wn, wfull, stop, dests, iov, content, held, pool, dfree, wdone, must, discarded>>
 
-WDest == WDestDone \/ \E rot \in BOOLEAN : WDestOne(rot)
+\* the kernel: writev with more than IOV_MAX segments fails (EINVAL) and writes nothing
+KernelWritev(f, segs) ==
+  content' = IF Len(segs) > IOVMax THEN content
+             ELSE [content EXCEPT ![f] = @ \o [i \in 1..Len(segs) |-> [g |-> gen[f], seg |-> segs[i]]]]
+
+\* write_use_plain_writev: the pending scatter list goes out in chunks of at most IOV_MAX segments
+WWritev ==
+  /\ wpc = "wv"
+  /\ LET f == dests[wdi]
+         n == IF Len(iov[f]) - woff < IOVMax THEN Len(iov[f]) - woff ELSE IOVMax
+     IN /\ KernelWritev(f, SubSeq(iov[f], woff + 1, woff + n))
+        /\ woff' = woff + n
+        /\ wpc' = IF woff + n = Len(iov[f]) THEN "free" ELSE "wv"
+  /\ UNCHANGED <<lpc, li, cells, popIdx, relIdx, tk, cpc, wn, wfull, stop, wdi, dests, iov, gen, rots, held, pool, dfree, wdone, must, discarded>>
+
+\* ... then every page of the list goes back to the allocator
+WFree ==
+  /\ wpc = "free"
+  /\ LET f == dests[wdi]
+     IN /\ Free({iov[f][i] : i \in 1..Len(iov[f])})
+        /\ iov' = [iov EXCEPT ![f] = << >>]
+  /\ wdi' = wdi + 1 /\ wpc' = "dest" /\ woff' = 0
+  /\ UNCHANGED <<lpc, li, cells, popIdx, relIdx, tk, cpc, wn, wfull, stop, dests, gen, rots, content, wdone, must, discarded>>
+
+WDest == WDestDone \/ (\E rot \in BOOLEAN : WDestOne(rot)) \/ WWritev \/ WFree
 
 WBackoff ==
   /\ wpc = "backoff"
   /\ wpc' = IF stop THEN "exit" ELSE "pop"
-  /\ UNCHANGED <<lpc, li, cells, popIdx, relIdx, tk, cpc, wn, wfull, stop, wdi, dests, iov, gen, rots, content, held, pool, dfree, wdone, must, discarded>>
+  /\ UNCHANGED <<lpc, li, cells, popIdx, relIdx, tk, cpc, wn, woff, wfull, stop, wdi, dests, iov, gen, rots, content, held, pool, dfree, wdone, must, discarded>>
 
 WriterStep == WPop1 \/ WRel1 \/ WPop2 \/ WRel2 \/ WDest \/ WBackoff
 
@@ -226,7 +251,7 @@ Next == ((\E t \in Loggers : LoggerStep(t)) \/ CloserStep \/ WriterStep) /\ UNCH
 
 \* ---- L1 clauses ----------------------------------------------------------------------------------
 Rec(f, k) == content[f][k]
-InFile(f, e) == \E k \in 1..Len(content[f]) : Rec(f, k).seg[1] = e
+InFile(f, e) == \A j \in 1..OpOf(e).s : \E k \in 1..Len(content[f]) : Rec(f, k).seg = <<e, j>>
 
 \* no segment reaches any file twice
 WrittenAtMostOnce ==
@@ -237,9 +262,10 @@ RightFile == \A f \in Files : \A k \in 1..Len(content[f]) : LET e == Rec(f, k).s
 \* the segments of an entry are adjacent, in order, in one generation of the file
 Unmixed ==
   \A f \in Files : \A k \in 1..Len(content[f]) :
-     IF Rec(f, k).seg[2] = 1
-     THEN k < Len(content[f]) /\ Rec(f, k + 1).seg = <<Rec(f, k).seg[1], 2>> /\ Rec(f, k + 1).g = Rec(f, k).g
-     ELSE k > 1 /\ Rec(f, k - 1).seg = <<Rec(f, k).seg[1], 1>>
+     LET e == Rec(f, k).seg[1]
+         j == Rec(f, k).seg[2]
+     IN /\ (j > 1 => k > 1 /\ Rec(f, k - 1).seg = <<e, j - 1>> /\ Rec(f, k - 1).g = Rec(f, k).g)
+        /\ (j < OpOf(e).s /\ wpc # "wv" => k < Len(content[f]) /\ Rec(f, k + 1).seg = <<e, j + 1>>)
 \* each thread's entries appear in the order it wrote them (per file; generations are ordered)
 PerThreadOrder ==
   \A f \in Files : \A k1 \in 1..Len(content[f]), k2 \in 1..Len(content[f]) :
